@@ -68,6 +68,10 @@ type session struct {
 	// Default zero-value is 0 not 'I', so always init via session ctor.
 	txStatus byte
 
+	// affectedRows counts the rows changed by the statements of the message
+	// being processed; reported in the CommandComplete tag.
+	affectedRows int
+
 	connParams      map[string]string
 	protocolVersion string
 
